@@ -468,8 +468,9 @@ func (f *CallForm) TransitionNP(process *Process, re *RuntimeEnvironment) {
 
 			// Since the function that uses an explicit provider is called using explicit self,
 			// e.g. f(self, x1, x2) or f(w, x1, x2) where w has IsSelf true,
-			// then w has to be replaced by the new provider
-			functionCallBody.Substitute(functionCall.ExplicitProvider, f.parameters[0])
+			// the ExplicitProvider already denotes the provider (IsSelf = true, set in the function
+			// definition). It keeps its own identifier: rewriting it to the caller's spelling of self
+			// would let a later binder of the callee, spelled like the caller's name, capture it
 
 			for i := 1; i < len(f.parameters); i++ {
 				functionCallBody.Substitute(functionCall.Parameters[i-1], f.parameters[i])
